@@ -384,7 +384,7 @@ func UUIDValue(info Info, data []byte) (Info, error) {
 				{"Time (raw)", fmt.Sprintf("%d", u.Time())},
 				{"Time (UTC)", t.Format("2006-01-02 15:04:05.9999999")},
 			}...)
-		case 0xff:
+		case 15:
 			if u.String() == uuid.Max.String() {
 				info.Description = "UUID (Max UUID)"
 			}
